@@ -110,7 +110,7 @@ func genC11(p *plan.Plan, r *plan.Rng, tier string) {
 		switch k := r.Intn(20); {
 		case k < 9:
 			st := randEncodeStep(r, true)
-			if r.Chance(2, 3) && st.T != "Unsupported" {
+			if r.Chance(2, 3) && !strings.HasPrefix(st.T, "Unsupported") {
 				st.T = encPool[r.Intn(len(encPool))]
 			}
 			p.Sessions = append(p.Sessions, one(id("e"), st))
@@ -189,6 +189,28 @@ func genC11(p *plan.Plan, r *plan.Rng, tier string) {
 				continue
 			}
 			p.Sessions = append(p.Sessions, one(id("n"), st))
+		}
+	}
+	// a compile that fails half-way (an unsupported member below supported
+	// structs), then first or later uses of those structs, of the failing type
+	// again and of types built from it
+	if r.Chance(1, 4) {
+		bad := []string{"Unsupported2", "Unsupported3", "Unsupported4", "Unsupported"}[r.Intn(4)]
+		rel := []string{"Small", "Nested", "Wide", "Big", "Leaf", "Tagged", "SliceSmall", "MapStrSmall"}
+		for k := r.Range(3, 7); k > 0; k-- {
+			t := rel[r.Intn(len(rel))]
+			if r.Chance(1, 3) {
+				t = bad
+			}
+			if r.Bool() {
+				st := plan.Step{Op: []string{"marshal", "marshal_indent", "marshal_ctx"}[r.Intn(3)], T: t, V: valueSeed(r, 0, 1), S2: " "}
+				if r.Chance(1, 3) {
+					st.Opts = []string{"ptr"}
+				}
+				p.Sessions = append(p.Sessions, one(id("c"), st))
+			} else {
+				p.Sessions = append(p.Sessions, one(id("c"), plan.Step{Op: "unmarshal", T: t, Doc: []byte(`{"S":{"A":1},"A":2,"B":"x","N":{},"L":null,"M":{}}`)}))
+			}
 		}
 	}
 	// the same long object graph encoded again after an encode of it failed
@@ -317,6 +339,20 @@ func genC19(p *plan.Plan, r *plan.Rng, tier string) {
 	p.Note = "several queries and the unfiltered encoding hit the same types in a seeded order; queries are shared handles"
 	next := 0
 	addHandleGroups(p, r, &next, 0, r.Range(1, 3), 0)
+	// short-lived queries: built, used once, forgotten and collected; the next
+	// query (another selection on the same type) may live at the same address
+	if r.Chance(1, 2) {
+		qt := queryTypes[r.Intn(len(queryTypes))]
+		for k := r.Range(4, 10); k > 0; k-- {
+			next++
+			h := "eq"
+			s := plan.Session{ID: fmt.Sprintf("e%d", next)}
+			s.Steps = append(s.Steps, plan.Step{Op: "query_new", H: h, S1: qt.Queries[r.Intn(len(qt.Queries))]})
+			s.Steps = append(s.Steps, queryMarshalStep(r, qt, h, false))
+			s.Steps = append(s.Steps, plan.Step{Op: "drop", H: h}, plan.Step{Op: "gc", N: 2})
+			p.Sessions = append(p.Sessions, s)
+		}
+	}
 	// unrelated traffic in between
 	for k := r.Range(0, 4); k > 0; k-- {
 		next++
@@ -405,7 +441,7 @@ func genC10(p *plan.Plan, r *plan.Rng, tier string) {
 			switch r.Intn(10) {
 			case 0, 1, 2, 3:
 				st = randEncodeStep(r, r.Chance(1, 4))
-				if r.Chance(2, 3) && st.T != "Unsupported" {
+				if r.Chance(2, 3) && !strings.HasPrefix(st.T, "Unsupported") {
 					st.T = shared[r.Intn(len(shared))]
 				}
 				// Debug writes to a per-step writer; fine. Colour schemes are read-only.
@@ -515,7 +551,7 @@ func genC06(p *plan.Plan, r *plan.Rng, tier string) {
 		switch k := r.Intn(20); {
 		case k < 8:
 			st := randDecodeStep(r, true)
-			switch r.Intn(6) {
+			switch r.Intn(8) {
 			case 0: // every prefix is reached over the plans: pick one
 				if len(st.Doc) > 0 {
 					st.Doc = st.Doc[:r.Intn(len(st.Doc))]
@@ -529,6 +565,21 @@ func genC06(p *plan.Plan, r *plan.Rng, tier string) {
 				st.Doc = b
 			case 2:
 				st.Doc = mutate(mutate(st.Doc, r), r)
+			case 3: // a run of ill-formed UTF-8 inside one string
+				st.Doc = badUTF8(st.Doc, r)
+				if r.Chance(1, 3) {
+					st.T = []string{"UT", "MapMTInt", "WithUCB", "MT", "UJ", "String", "Bytes", "Iface"}[r.Intn(8)]
+					if typeMap[st.T] == nil {
+						st.T = "UT"
+					}
+					if r.Bool() {
+						st.Doc = badUTF8([]byte(`"x"`), r)
+					}
+				}
+			case 4: // the text ends where a buffer ends
+				if r.Chance(1, 2) {
+					st.Doc = alignedText(r)
+				}
 			}
 			p.Sessions = append(p.Sessions, one(id("d"), st))
 		case k == 8:
@@ -537,6 +588,12 @@ func genC06(p *plan.Plan, r *plan.Rng, tier string) {
 			st := randUtilStep(r)
 			if r.Chance(1, 2) && len(st.Doc) > 0 {
 				st.Doc = st.Doc[:r.Intn(len(st.Doc))]
+			}
+			switch r.Intn(6) {
+			case 0, 1:
+				st.Doc = alignedText(r)
+			case 2:
+				st.Doc = badUTF8(st.Doc, r)
 			}
 			p.Sessions = append(p.Sessions, one(id("u"), st))
 		case k < 16:
